@@ -231,6 +231,33 @@ impl FixtureDatabase {
                     self.visit_expr_for_names(msg, ctx);
                 }
             }
+            Stmt::Try(try_stmt) => {
+                for stmt in &try_stmt.body {
+                    self.visit_stmt_for_names(stmt, ctx);
+                }
+                for handler in &try_stmt.handlers {
+                    let rustpython_parser::ast::ExceptHandler::ExceptHandler(h) = handler;
+                    for stmt in &h.body {
+                        self.visit_stmt_for_names(stmt, ctx);
+                    }
+                }
+                for stmt in &try_stmt.orelse {
+                    self.visit_stmt_for_names(stmt, ctx);
+                }
+                for stmt in &try_stmt.finalbody {
+                    self.visit_stmt_for_names(stmt, ctx);
+                }
+            }
+            Stmt::AnnAssign(ann_assign) => {
+                if let Some(ref value) = ann_assign.value {
+                    self.visit_expr_for_names(value, ctx);
+                }
+            }
+            Stmt::Raise(raise_stmt) => {
+                if let Some(ref exc) = raise_stmt.exc {
+                    self.visit_expr_for_names(exc, ctx);
+                }
+            }
             _ => {}
         }
     }
@@ -285,6 +312,9 @@ impl FixtureDatabase {
                 self.visit_expr_for_names(&call.func, ctx);
                 for arg in &call.args {
                     self.visit_expr_for_names(arg, ctx);
+                }
+                for keyword in &call.keywords {
+                    self.visit_expr_for_names(&keyword.value, ctx);
                 }
             }
             Expr::Attribute(attr) => {
